@@ -74,6 +74,10 @@ pub enum VAct {
     ShrinkToFit,
     CloneCmp,
     IntoIter { front: u8, back: u8, forget: bool },
+    /// other iterator methods of IntoIter (nth, nth_back, count, last, as_slice, size_hint, skip)
+    IntoIterX { k: u8 },
+    /// read-only trait surface: is_empty, Hash, IntoIterator for &/&mut, comparisons, Debug, AsRef/AsMut/Borrow
+    Inspect { k: u8 },
     IntoBumpSlice { mutable: bool },
     IntoBoxed,
     FromIterIn { n: u8, hint: u8 },
@@ -177,6 +181,9 @@ impl<I: Iterator> Iterator for ExhaustOnDrop<I> {
     fn next(&mut self) -> Option<I::Item> {
         self.0.next()
     }
+    fn size_hint(&self) -> (usize, Option<usize>) {
+        self.0.size_hint()
+    }
 }
 impl<I: Iterator> Drop for ExhaustOnDrop<I> {
     fn drop(&mut self) {
@@ -194,6 +201,69 @@ pub fn src<E: Elem>(world: u8, labels: &mut Labels, n: usize, hint: u8) -> Src<E
     let _g = Callback::enter();
     let items: Vec<E> = (0..n).map(|k| E::mk(world, labels.take(), (k % 2) as u8)).collect();
     Src { items: std::mem::ManuallyDrop::new(items.into_iter()), left: n, hint, world }
+}
+
+pub fn hint_code(h: (usize, Option<usize>)) -> i64 {
+    h.0 as i64 * 1000 + h.1.map_or(999, |x| x as i64)
+}
+
+fn ord_code(o: Option<std::cmp::Ordering>) -> i64 {
+    match o {
+        None => 9,
+        Some(std::cmp::Ordering::Less) => 1,
+        Some(std::cmp::Ordering::Equal) => 2,
+        Some(std::cmp::Ordering::Greater) => 3,
+    }
+}
+
+/// The read-only trait surface every vector type in the comparison shares.
+pub fn inspect_common<E: Elem, V>(v: &mut V, other: &V, k: u8, obs: &mut Obs)
+where
+    V: VecLike<E> + std::hash::Hash + PartialEq + PartialOrd + std::fmt::Debug + AsRef<[E]> + AsMut<[E]> + std::ops::Deref<Target = [E]> + std::ops::DerefMut,
+    for<'x> &'x V: IntoIterator<Item = &'x E>,
+    for<'x> &'x mut V: IntoIterator<Item = &'x mut E>,
+{
+    use std::hash::{Hash, Hasher};
+    match k {
+        0 => {
+            obs.n(v.sl().is_empty() as i64);
+            obs.n(<[E]>::is_empty(&**v) as i64);
+            let mut h1 = std::collections::hash_map::DefaultHasher::new();
+            Hash::hash(&*v, &mut h1);
+            let mut h2 = std::collections::hash_map::DefaultHasher::new();
+            Hash::hash(v.sl(), &mut h2);
+            obs.n((h1.finish() == h2.finish()) as i64);
+            let mut acc = 0i64;
+            for e in &*v {
+                acc = acc * 3 + e.val() as i64 + 1;
+            }
+            obs.n(acc);
+            let mut cnt = 0i64;
+            for e in &mut *v {
+                cnt += 1 + e.val() as i64;
+            }
+            obs.n(cnt);
+            let a: &[E] = (*v).as_ref();
+            obs.n(a.len() as i64);
+            let c: &mut [E] = (*v).as_mut();
+            obs.n(c.len() as i64);
+        }
+        1 => {
+            obs.n((*v == *other) as i64);
+            obs.n((*v != *other) as i64);
+            obs.n(ord_code(PartialOrd::partial_cmp(&*v, other)));
+            obs.n(ord_code(PartialOrd::partial_cmp(other, &*v)));
+            obs.n((*v < *other) as i64 * 8 + (*v <= *other) as i64 * 4 + (*v > *other) as i64 * 2 + (*v >= *other) as i64);
+        }
+        _ => {
+            if E::COPY {
+                let _g = Callback::enter();
+                let t = format!("{:?}|{:#?}|{:>3?}", v, v, v);
+                obs.n(t.len() as i64);
+                obs.n(t.bytes().fold(7i64, |a, c| (a * 31 + c as i64) % 1_000_003));
+            }
+        }
+    }
 }
 
 pub fn pred(p: u8, call: usize, val: u8) -> bool {
@@ -275,13 +345,15 @@ pub trait VecLike<E: Elem>: Sized {
     /// io::Write (u8 elements only); returns bytes written or -1 on error, None if not applicable
     fn v_write(&mut self, data: &[u8], all: bool) -> Option<i64>;
     fn v_into_iter(self, front: u8, back: u8, forget: bool, obs: &mut Obs);
+    fn v_into_iter_x(self, k: u8, obs: &mut Obs);
+    fn v_inspect(&mut self, other: &Self, k: u8, obs: &mut Obs);
     fn v_leak(self, mutable: bool) -> &'static [E];
     fn v_into_boxed(self, obs: &mut Obs);
     fn v_set_len(&mut self, n: usize);
 }
 
 macro_rules! impl_veclike {
-    ($ty:ty, $newin:expr, $fresh:expr, $withcap:expr, $fromiter:expr, $macro:expr, $repeat:expr, $drainfilter:ident, $leak:expr, $boxed:expr, $tryres:expr, $tryresx:expr, $copy:ident, $copies:expr, $write:expr) => {
+    ($ty:ty, $newin:expr, $fresh:expr, $withcap:expr, $fromiter:expr, $macro:expr, $repeat:expr, $drainfilter:ident, $leak:expr, $boxed:expr, $tryres:expr, $tryresx:expr, $copy:ident, $copies:expr, $write:expr, $extra:expr) => {
         impl<E: Elem> VecLike<E> for $ty {
             fn new_in_arena(b: &'static Bump, cap: usize) -> Self {
                 $newin(b, cap)
@@ -367,6 +439,7 @@ macro_rules! impl_veclike {
             fn v_drain(&mut self, r: (Bound<usize>, Bound<usize>), mode: u8, obs: &mut Obs) {
                 let mut d = self.drain(r);
                 obs.n(d.len() as i64);
+                obs.n(hint_code(d.size_hint()));
                 match mode {
                     0 => {}
                     1 => {
@@ -393,6 +466,7 @@ macro_rules! impl_veclike {
             }
             fn v_splice(&mut self, r: (Bound<usize>, Bound<usize>), repl: Src<E>, mode: u8, obs: &mut Obs) {
                 let mut s = self.splice(r, repl);
+                obs.n(hint_code(s.size_hint()));
                 match mode {
                     0 => {}
                     1 => {
@@ -418,6 +492,7 @@ macro_rules! impl_veclike {
             }
             fn v_drain_filter(&mut self, f: &mut dyn FnMut(&mut E) -> bool, mode: u8, obs: &mut Obs) {
                 let mut d = $drainfilter!(self, |e: &mut E| f(e));
+                obs.n(hint_code(d.size_hint()));
                 match mode {
                     0 => {}
                     1 => {
@@ -486,6 +561,72 @@ macro_rules! impl_veclike {
                     drop(it)
                 }
             }
+            fn v_into_iter_x(self, k: u8, obs: &mut Obs) {
+                let n = self.len();
+                let mut it = self.into_iter();
+                obs.n(hint_code(it.size_hint()));
+                match k {
+                    0 => {
+                        if let Some(x) = it.nth(1) {
+                            obs.el(&x);
+                        }
+                    }
+                    1 => {
+                        obs.n(it.nth(n).is_none() as i64);
+                    }
+                    2 => {
+                        if let Some(x) = it.nth_back(1) {
+                            obs.el(&x);
+                        }
+                    }
+                    3 => {
+                        obs.n(it.count() as i64);
+                        return;
+                    }
+                    4 => {
+                        if let Some(x) = it.last() {
+                            obs.el(&x);
+                        }
+                        return;
+                    }
+                    5 => {
+                        let _ = it.next();
+                        let _ = it.next_back();
+                        obs.n(it.as_slice().len() as i64);
+                        for e in it.as_slice() {
+                            obs.n(e.val() as i64);
+                        }
+                        obs.n(it.as_mut_slice().len() as i64);
+                    }
+                    6 => {
+                        let mut sk = it.skip(n + 1);
+                        obs.n(sk.next().is_none() as i64);
+                        return;
+                    }
+                    7 => {
+                        let mut sb = it.step_by(2);
+                        while let Some(x) = sb.next() {
+                            obs.el(&x);
+                        }
+                        return;
+                    }
+                    _ => {
+                        let mut rv = it.rev();
+                        if let Some(x) = rv.next() {
+                            obs.el(&x);
+                        }
+                        return;
+                    }
+                }
+                obs.n(hint_code(it.size_hint()));
+                drop(it)
+            }
+            fn v_inspect(&mut self, other: &Self, k: u8, obs: &mut Obs) {
+                inspect_common::<E, Self>(self, other, k, obs);
+                if k == 0 {
+                    $extra(self, other, obs);
+                }
+            }
             fn v_leak(self, mutable: bool) -> &'static [E] {
                 $leak(self, mutable)
             }
@@ -523,7 +664,18 @@ impl_veclike!(
         use bumpalo::collections::CollectIn;
         match how {
             0 => BVec::from_iter_in(it, b_bump(s)),
-            _ => it.collect_in::<BVec<'static, E>>(b_bump(s)),
+            1 => it.collect_in::<BVec<'static, E>>(b_bump(s)),
+            // FromIteratorIn for Option<C> / Result<C, E>: stops at the first None / Err
+            2 | 3 => {
+                let mut i = 0usize;
+                let r = it.map(|e| { i += 1; if how == 3 && i == 2 { None } else { Some(e) } }).collect_in::<Option<BVec<'static, E>>>(b_bump(s));
+                r.unwrap_or_else(|| BVec::new_in(b_bump(s)))
+            }
+            _ => {
+                let mut i = 0usize;
+                let r = it.map(|e| { i += 1; if how == 5 && i == 2 { Err(i) } else { Ok(e) } }).collect_in::<Result<BVec<'static, E>, usize>>(b_bump(s));
+                r.unwrap_or_else(|_| BVec::new_in(b_bump(s)))
+            }
         }
     },
     |s: &BVec<'static, E>, items: Vec<E>| {
@@ -569,6 +721,27 @@ impl_veclike!(
         use std::io::Write;
         let s8: &mut BVec<'static, u8> = unsafe { &mut *(s as *mut BVec<'static, E> as *mut BVec<'static, u8>) };
         Some(if all { s8.write_all(data).map(|_| data.len() as i64).unwrap_or(-1) } else { let r = s8.write(data).map(|n| n as i64).unwrap_or(-1); s8.flush().ok(); r })
+    },
+    |s: &mut BVec<'static, E>, other: &BVec<'static, E>, obs: &mut Obs| {
+        // impls only the arena Vec and std's Vec have in common: BorrowMut, AsRef<Vec>/AsMut<Vec>, comparisons with slices and arrays
+        let d: &mut [E] = std::borrow::BorrowMut::borrow_mut(&mut *s);
+        obs.n(d.len() as i64);
+        let b: &[E] = std::borrow::Borrow::borrow(&*s);
+        obs.n(b.len() as i64);
+        let me: &BVec<'static, E> = AsRef::<BVec<'static, E>>::as_ref(&*s);
+        obs.n(me.len() as i64);
+        let me2: &mut BVec<'static, E> = AsMut::<BVec<'static, E>>::as_mut(&mut *s);
+        obs.n(me2.len() as i64);
+        let sl: &[E] = other.sl();
+        obs.n((*s == sl) as i64);
+        obs.n((*s != sl) as i64);
+        if s.len() == 2 && E::COPY {
+            let arr: [E; 2] = [s[0].dup(), s[1].dup()];
+            obs.n((*s == arr) as i64);
+            obs.n((*s == &arr) as i64);
+            let arr3: [E; 3] = [s[0].dup(), s[1].dup(), s[1].dup()];
+            obs.n((*s == arr3) as i64);
+        }
     }
 );
 
@@ -577,7 +750,17 @@ impl_veclike!(
     |_b: &'static Bump, cap: usize| if cap == 0 { Vec::new() } else { Vec::with_capacity(cap) },
     |_s: &Vec<E>| Vec::new(),
     |_s: &Vec<E>, n: usize| Vec::with_capacity(n),
-    |_s: &Vec<E>, it: Src<E>, _how: u8| it.collect::<Vec<E>>(),
+    |_s: &Vec<E>, it: Src<E>, how: u8| match how {
+        0 | 1 => it.collect::<Vec<E>>(),
+        2 | 3 => {
+            let mut i = 0usize;
+            it.map(|e| { i += 1; if how == 3 && i == 2 { None } else { Some(e) } }).collect::<Option<Vec<E>>>().unwrap_or_default()
+        }
+        _ => {
+            let mut i = 0usize;
+            it.map(|e| { i += 1; if how == 5 && i == 2 { Err(i) } else { Ok(e) } }).collect::<Result<Vec<E>, usize>>().unwrap_or_default()
+        }
+    },
     |_s: &Vec<E>, items: Vec<E>| {
         let mut it = items.into_iter();
         match it.len() {
@@ -611,6 +794,27 @@ impl_veclike!(
         use std::io::Write;
         let s8: &mut Vec<u8> = unsafe { &mut *(s as *mut Vec<E> as *mut Vec<u8>) };
         Some(if all { s8.write_all(data).map(|_| data.len() as i64).unwrap_or(-1) } else { let r = s8.write(data).map(|n| n as i64).unwrap_or(-1); s8.flush().ok(); r })
+    },
+    |s: &mut Vec<E>, other: &Vec<E>, obs: &mut Obs| {
+        // impls only the arena Vec and std's Vec have in common: BorrowMut, AsRef<Vec>/AsMut<Vec>, comparisons with slices and arrays
+        let d: &mut [E] = std::borrow::BorrowMut::borrow_mut(&mut *s);
+        obs.n(d.len() as i64);
+        let b: &[E] = std::borrow::Borrow::borrow(&*s);
+        obs.n(b.len() as i64);
+        let me: &Vec<E> = AsRef::<Vec<E>>::as_ref(&*s);
+        obs.n(me.len() as i64);
+        let me2: &mut Vec<E> = AsMut::<Vec<E>>::as_mut(&mut *s);
+        obs.n(me2.len() as i64);
+        let sl: &[E] = other.sl();
+        obs.n((*s == sl) as i64);
+        obs.n((*s != sl) as i64);
+        if s.len() == 2 && E::COPY {
+            let arr: [E; 2] = [s[0].dup(), s[1].dup()];
+            obs.n((*s == arr) as i64);
+            obs.n((*s == &arr) as i64);
+            let arr3: [E; 3] = [s[0].dup(), s[1].dup(), s[1].dup()];
+            obs.n((*s == arr3) as i64);
+        }
     }
 );
 
@@ -676,7 +880,8 @@ impl_veclike!(
         s.extend_from_slice(a);
         s.extend_from_slice(b);
     },
-    |_s: &mut AVec<E>, _data: &[u8], _all: bool| -> Option<i64> { None }
+    |_s: &mut AVec<E>, _data: &[u8], _all: bool| -> Option<i64> { None },
+    |_s: &mut AVec<E>, _o: &AVec<E>, _obs: &mut Obs| {}
 );
 
 /// The same collection type with the global allocator: the reference for AVec ("behaves exactly as
@@ -724,5 +929,6 @@ impl_veclike!(
         s.extend_from_slice(a);
         s.extend_from_slice(b);
     },
-    |_s: &mut GVec<E>, _data: &[u8], _all: bool| -> Option<i64> { None }
+    |_s: &mut GVec<E>, _data: &[u8], _all: bool| -> Option<i64> { None },
+    |_s: &mut GVec<E>, _o: &GVec<E>, _obs: &mut Obs| {}
 );
